@@ -28,6 +28,11 @@ pub struct Case {
     pub trickle_rounds: u8,
     pub trickle_bytes: u16,
     pub second_stall: bool,
+    /// while the publishers are blocked the server closes every one of their channels
+    /// (Channel.Close 404, as for publishes to a vanished exchange): the throttle episode ends
+    /// with no channel left, and a channel opened afterwards must still work
+    #[serde(default)]
+    pub server_closes_all: bool,
 }
 
 fn msg_body(p: usize, k: usize, size: usize) -> Vec<u8> {
@@ -218,7 +223,39 @@ pub fn exec(c: &Case) -> Outcome {
         return fail_and_cleanup(Outcome::fail("publishers-finished-during-stall", format!("all quotas were accepted although nothing could be written (excess {})\n{}", s1.excess, ctx)));
     }
     let above_high = s1.excess > high;
-    if c.open_during_stall {
+    let mut early_results: Vec<(usize, Result<usize, String>)> = Vec::new();
+    let mut early_back: Vec<Channel> = Vec::new();
+    if c.server_closes_all {
+        let ids2 = ids.clone();
+        let _ = sess.broker.call(move |_, io| {
+            for id in &ids2 {
+                io.send_method(
+                    *id,
+                    AMQPClass::Channel(amq_protocol::protocol::channel::AMQPMethod::Close(amq_protocol::protocol::channel::Close {
+                        reply_code: 404,
+                        reply_text: "NOT_FOUND - no exchange".into(),
+                        class_id: 60,
+                        method_id: 40,
+                    })),
+                );
+            }
+        });
+        // every publisher is released by the close although nothing can be written; only then
+        // (all slots gone) is the transport released
+        for _ in 0..np {
+            match rx.recv_timeout(Duration::from_secs(8)) {
+                Ok((i, r, ch)) => {
+                    early_results.push((i, r));
+                    early_back.push(ch);
+                }
+                Err(_) => {
+                    let _ = sess.broker.stop();
+                    return fail_and_cleanup(Outcome::hang("publisher-not-released-by-server-close-during-stall", ctx.clone()));
+                }
+            }
+        }
+    }
+    if c.open_during_stall && !c.server_closes_all {
         let mut cn = conn_opt.take().unwrap();
         opener = Some(std::thread::spawn(move || {
             let r = match cn.open_channel(None) {
@@ -230,12 +267,12 @@ pub fn exec(c: &Case) -> Outcome {
         std::thread::sleep(Duration::from_millis(10));
     }
     // trickle
-    for _ in 0..c.trickle_rounds % 24 {
+    for _ in 0..(if c.server_closes_all { 0 } else { c.trickle_rounds % 24 }) {
         wire.grant(1 + c.trickle_bytes as usize % 3000);
         std::thread::sleep(Duration::from_millis(2));
     }
     let mut s2_excess = 0;
-    if c.second_stall {
+    if c.second_stall && !c.server_closes_all {
         let (_q, s2) = wait_quiet(Duration::from_millis(100), Duration::from_secs(6));
         s2_excess = s2.excess;
         if s2.excess > 2 * limit {
@@ -246,8 +283,12 @@ pub fn exec(c: &Case) -> Outcome {
     // release
     wire.set_budget(None);
     let mut results: Vec<Option<Result<usize, String>>> = (0..np).map(|_| None).collect();
-    let mut back = Vec::new();
-    for _ in 0..np {
+    let mut back = early_back;
+    let n_early = early_results.len();
+    for (i, r) in early_results {
+        results[i] = Some(r);
+    }
+    for _ in n_early..np {
         match rx.recv_timeout(Duration::from_secs(12)) {
             Ok((i, r, ch)) => {
                 results[i] = Some(r);
@@ -275,6 +316,19 @@ pub fn exec(c: &Case) -> Outcome {
             let _ = sess.broker.stop();
             return fail_and_cleanup(Outcome::fail("open-channel-during-stall-failed", format!("{}\n{}", e, ctx)));
         }
+    }
+    if c.server_closes_all {
+        // let the episode really end first: every CloseOk written (the buffer has drained), quiet
+        let want = np;
+        wire.wait_until(Duration::from_secs(6), |st| {
+            crate::codec::decode_stream(&st.out)
+                .frames
+                .iter()
+                .filter(|(_, f)| matches!(f, AMQPFrame::Method(_, AMQPClass::Channel(amq_protocol::protocol::channel::AMQPMethod::CloseOk(_)))))
+                .count()
+                >= want
+        });
+        std::thread::sleep(Duration::from_millis(30));
     }
     // a channel opened after the throttle episode is over must work like any other
     let mut conn = conn_opt.take().unwrap();
@@ -319,6 +373,8 @@ pub fn exec(c: &Case) -> Outcome {
     for (i, r) in results.iter().enumerate() {
         match r {
             Some(Ok(n)) if *n == quotas[i] => {}
+            // a publisher whose channel the server closed ends with that close's error
+            Some(Err(e)) if c.server_closes_all && e.contains("ServerClosedChannel") && e.contains("404") => {}
             other => return Outcome::fail("publisher-failed", format!("publisher {}: {:?}\n{}", i, other, ctx)),
         }
     }
@@ -334,6 +390,10 @@ pub fn exec(c: &Case) -> Outcome {
         let mut k = 0usize;
         let mut j = 0;
         while j < frames.len() {
+            if c.server_closes_all && matches!(&frames[j].1, AMQPFrame::Method(_, AMQPClass::Channel(amq_protocol::protocol::channel::AMQPMethod::CloseOk(_)))) {
+                // the channel ended here (its id may have been given to the late channel)
+                break;
+            }
             if let AMQPFrame::Method(_, AMQPClass::Basic(Basic::Publish(_))) = &frames[j].1 {
                 let want = msg_body(i, k, sizes[i]);
                 let mut got = Vec::new();
@@ -356,8 +416,11 @@ pub fn exec(c: &Case) -> Outcome {
                 j += 1;
             }
         }
-        if k != quotas[i] {
-            return Outcome::fail("message-lost-duplicated-or-reordered", format!("publisher {}: {} messages on the wire, {} accepted\n{}", i, k, quotas[i], ctx));
+        // (messages a publisher had handed over but the I/O thread had not yet taken when the
+        // server closed the channel go with the channel: a prefix is all that can be demanded)
+        let accepted_i = progress[i].load(Ordering::SeqCst);
+        if (!c.server_closes_all && k != quotas[i]) || k > accepted_i {
+            return Outcome::fail("message-lost-duplicated-or-reordered", format!("publisher {}: {} messages on the wire, {} accepted\n{}", i, k, accepted_i, ctx));
         }
     }
     let late_ok = chans_w.get(&late_id).map_or(false, |fs| fs.iter().any(|(_, f)| matches!(f, AMQPFrame::Body(_, b) if b == b"after the stall")));
@@ -367,6 +430,9 @@ pub fn exec(c: &Case) -> Outcome {
     let mut o = Outcome::pass(above_high && s1.any_blocked);
     if above_high {
         o.labels.push("excess-above-high-water".into());
+    }
+    if c.server_closes_all {
+        o.labels.push("server-closed-every-channel-during-stall".into());
     }
     if c.open_during_stall {
         o.labels.push("channel-opened-during-stall".into());
@@ -388,8 +454,9 @@ fn strat(_t: Tier) -> BoxedStrategy<Case> {
         any::<u8>(),
         any::<u16>(),
         any::<bool>(),
+        prop::bool::weighted(0.2),
     )
-        .prop_map(|(mem_channel_bound, high_water_kib, low_pct, publishers, open_during_stall, trickle_rounds, trickle_bytes, second_stall)| Case {
+        .prop_map(|(mem_channel_bound, high_water_kib, low_pct, publishers, open_during_stall, trickle_rounds, trickle_bytes, second_stall, server_closes_all)| Case {
             mem_channel_bound,
             high_water_kib,
             low_pct,
@@ -398,6 +465,7 @@ fn strat(_t: Tier) -> BoxedStrategy<Case> {
             trickle_rounds,
             trickle_bytes,
             second_stall,
+            server_closes_all,
         })
         .boxed()
 }
@@ -412,6 +480,7 @@ fn enumerate(_t: Tier) -> Vec<Case> {
             low_pct: 0,
             publishers: vec![700; n],
             open_during_stall: false,
+            server_closes_all: false,
             trickle_rounds: 3,
             trickle_bytes: 500,
             second_stall: false,
@@ -422,7 +491,7 @@ fn enumerate(_t: Tier) -> Vec<Case> {
 pub fn parts() -> Vec<Box<dyn PartDyn>> {
     vec![Box::new(Part::<Case> {
         name: "e2e",
-        rule: "tuning (mem_channel_bound 1-8 plus the documented value 0 as an enumerated scenario, high-water 4-64 KiB, low-water 0-100 % of it), 1-3 publisher threads with a channel each and messages of 100-8100 bytes, total quota four times the tuning-derived buffering limit; the mock transport grants no write budget until every publisher has made no progress for 150 ms, optionally a channel is opened and closed from the connection thread during the stall, then budget trickles in (0-23 grants of 1-3000 bytes), optionally a second stall, finally the transport is unrestricted; oracle: (1) accepted minus written bytes stays below high-water + channels x (16 x bound + 64) x (largest message + framing) while stalled (a generous, tuning-derived limit; the quotas are four times it; an excess is reported only beyond twice the limit, i.e. half of the total quota, and only if it recurs on every re-execution), (2) publishers really block (quotas unfinished, no progress), (3) once budget returns every publisher finishes and the open_channel issued during the stall completes, (4) every accepted message is on the final wire exactly once, in order, intact; non-trivial = a publisher blocked during a stall in which the excess was above the high-water mark; distinct by case hash",
+        rule: "tuning (mem_channel_bound 1-8 plus the documented value 0 as an enumerated scenario, high-water 4-64 KiB, low-water 0-100 % of it), 1-3 publisher threads with a channel each and messages of 100-8100 bytes, total quota four times the tuning-derived buffering limit; the mock transport grants no write budget until every publisher has made no progress for 150 ms, optionally a channel is opened and closed from the connection thread during the stall, or (one session in five) the server closes every publisher channel during the stall so that the throttle episode ends with no channel left, then budget trickles in (0-23 grants of 1-3000 bytes), optionally a second stall, finally the transport is unrestricted; oracle: (1) accepted minus written bytes stays below high-water + channels x (16 x bound + 64) x (largest message + framing) while stalled (a generous, tuning-derived limit; the quotas are four times it; an excess is reported only beyond twice the limit, i.e. half of the total quota, and only if it recurs on every re-execution), (2) publishers really block (quotas unfinished, no progress), (3) once budget returns every publisher finishes and the open_channel issued during the stall completes, (4) every accepted message is on the final wire exactly once, in order, intact; non-trivial = a publisher blocked during a stall in which the excess was above the high-water mark; distinct by case hash",
         cases: |t| t.pick(200, 3000),
         threads: 12,
         strategy: strat,
